@@ -91,28 +91,38 @@ def gen_sum_product(rng):
     return ctx, recipe
 
 
-# Binary ops a lazy body may use under a reduction by `op` in the CLEAN stream: the pairs for which
-# pushing the reduction into one operand is valid on all reals.  Excluded regions:
-#   * (add|mul reduce) over (max|min), (mul reduce) over add: open finding KF-eager-nondistributive-pushdown
-#     (dedicated stream in fv/harness/c03.py);
-#   * (max|min reduce) over mul with lazy operands: (max, mul) distributes on non-negative reals only — the
-#     carrier funsor documents for that semiring.
-LAZY_BODY_OPS = {"add": ["add", "mul", "sub"], "mul": ["mul"], "max": ["add", "max", "min", "sub"],
-                 "min": ["add", "max", "min", "sub"]}
+# Profiles of LAZY bodies (they mention a free real variable x).  funsor rewrites lazy products with the
+# pairs of ops.DISTRIBUTIVE_OPS; (max, mul) and (min, mul) are semirings on the NON-NEGATIVE reals only (the
+# carrier the property assumes for them), so mul is mixed with max/min only over non-negative data.
+#   ring      add/mul/sub, any sign; reductions add, mul      ((mul, add) does not distribute: stays lazy)
+#   tropical  add/sub/max/min, any sign; reductions add, max, min   ((add, max) does not distribute: stays lazy)
+#   nonneg    add/mul/max/min over data >= 0 and x >= 0; reductions add, mul, max, min
+LAZY_PROFILES = {
+    "ring": (["add", "mul", "sub"], ["add", "add", "mul"], "mul", True),
+    "tropical": (["add", "sub", "max", "min"], ["add", "max", "min"], "add", True),
+    "nonneg": (["add", "mul", "max", "min"], ["add", "mul", "max", "min"], "mul", False),
+}
 
 
 def gen_seq_lazy(rng):
     """A reduction whose body stays LAZY (it mentions a free real variable x), so that `sequential`
-    really runs Funsor.sequential_reduce (terms.py:537-560) instead of the Tensor reduction."""
+    really runs Funsor.sequential_reduce (terms.py:537-560) instead of the Tensor reduction, and eager has
+    to go through the Contraction rules of funsor/cnf.py with a lazy operand."""
     ctx = gen_ctx(rng)
-    op = rng.choice(["add", "add", "mul", "max", "min"])
-    allowed = LAZY_BODY_OPS[op]
-    scale = "mul" if "mul" in allowed else "add"
+    profile = rng.choice(["ring", "tropical", "nonneg"])
+    allowed, red_ops, scale, signed = LAZY_PROFILES[profile]
+    op = rng.choice(red_ops)
+
+    def tensor(c, names=None):
+        t = gen_terms.gen_tensor(rng, c, "real", names=names)
+        if not signed:
+            t = t[:4] + (np.abs(t[4]),)
+        return t
 
     def leaf():
         if rng.random() < 0.3:
             return ("var", "x", Real)
-        return gen_terms.gen_tensor(rng, ctx, "real")
+        return tensor(ctx)
 
     def body(d):
         if d <= 0 or rng.random() < 0.25:
@@ -120,26 +130,29 @@ def gen_seq_lazy(rng):
         c = rng.random()
         if c < 0.7:
             return ("binary", rng.choice(allowed), body(d - 1), body(d - 1))
-        if c < 0.85 and op != "mul":
+        if c < 0.85 and signed and profile == "tropical":
             return ("unary", rng.choice(["neg", "abs"]), body(d - 1))
         name = rng.choice(list(ctx))
         sub = {k: v for k, v in ctx.items() if k != name}
         parts = []
         for _ in range(ctx[name]):
-            parts.append(("binary", scale, ("var", "x", Real), gen_terms.gen_tensor(rng, sub, "real")))
+            parts.append(("binary", scale, ("var", "x", Real), tensor(sub)))
         return ("stack", name, tuple(parts))
-    b = ("binary", scale, ("var", "x", Real), body(rng.choice([1, 2, 2, 3])))
+    b = ("binary", rng.choice(allowed if signed or True else allowed), ("var", "x", Real), body(rng.choice([1, 2, 2, 3])))
+    if b[1] == "sub" and not signed:
+        b = ("binary", "add") + b[2:]
     try:
         _, free = recipe_wire(b)
     except IllFormed:
         free = {}
     names = sorted(k for k, v in free.items() if v != "real")
     if not names:
-        t = gen_terms.gen_tensor(rng, ctx, "real", names=[rng.choice(list(ctx))])
+        t = tensor(ctx, names=[rng.choice(list(ctx))])
         b = ("binary", scale, b, t)
         names = [t[1][0][0]]
     rv = [n for n in names if rng.random() < 0.6] or [rng.choice(names)]
-    return ctx, ("reduce", op, b, tuple(sorted(rv)), ()), {"x": rng.choice([-1.0, 0.0, 0.5, 2.0, 3.0])}
+    xs = [-1.0, 0.0, 0.5, 2.0, 3.0] if signed else [0.0, 0.5, 2.0, 3.0]
+    return ctx, ("reduce", op, b, tuple(sorted(rv)), ()), {"x": rng.choice(xs)}
 
 
 def cases(base_seed, n):
